@@ -406,25 +406,33 @@ inductive Sym where
   | endOfBlock
   | lenBase (entry : Nat)
 
-/-- classify the H-L table entry (first level: a redirect leads to a second lookup) -/
+/-- the first three arms of the `if (table_entry >> 31) <> 0 {literal} else if (… >> 30) <> 0 {base number}
+    else if (… >> 29) <> 0 {end of block}` chain, which the source has twice (first and second level) -/
+def lcodeClass (e : Nat) : Option Sym :=
+  if e >>> 31 ≠ 0 then some (.literal ((e >>> 8) &&& 0xFF))
+  else if e >>> 30 ≠ 0 then some (.lenBase e)
+  else if e >>> 29 ≠ 0 then some .endOfBlock
+  else none
+
+/-- decode an lcode symbol from H-L (first level; a redirect entry leads to a second lookup) -/
 def lcodeSym (src : Bytes) (st : St) (b : BR) : M (Sym × BR) := do
   let lmask := (1 <<< st.nHuffsBits0) - 1
   let (e, b) ← lookupLoop src st.huffs0 0 lmask 3 b
-  if e >>> 31 ≠ 0 then .ok (.literal ((e >>> 8) &&& 0xFF), b)
-  else if e >>> 30 ≠ 0 then .ok (.lenBase e, b)
-  else if e >>> 29 ≠ 0 then .ok (.endOfBlock, b)
-  else if e >>> 28 ≠ 0 then do
-    let redirTop := (e >>> 8) &&& 0xFFFF
-    let redirMask := (1 <<< ((e >>> 4) &&& 0x0F)) - 1
-    let (e, b) ← lookupLoop src st.huffs0 redirTop redirMask 3 b
-    if e >>> 31 ≠ 0 then .ok (.literal ((e >>> 8) &&& 0xFF), b)
-    else if e >>> 30 ≠ 0 then .ok (.lenBase e, b)
-    else if e >>> 29 ≠ 0 then .ok (.endOfBlock, b)
-    else if e >>> 28 ≠ 0 then .error errInternal
+  match lcodeClass e with
+  | some sy => .ok (sy, b)
+  | none =>
+    if e >>> 28 ≠ 0 then do
+      let redirTop := (e >>> 8) &&& 0xFFFF
+      let redirMask := (1 <<< ((e >>> 4) &&& 0x0F)) - 1
+      let (e, b) ← lookupLoop src st.huffs0 redirTop redirMask 3 b
+      match lcodeClass e with
+      | some sy => .ok (sy, b)
+      | none =>
+        if e >>> 28 ≠ 0 then .error errInternal
+        else if e >>> 27 ≠ 0 then .error "#bad Huffman code"
+        else .error errInternal
     else if e >>> 27 ≠ 0 then .error "#bad Huffman code"
     else .error errInternal
-  else if e >>> 27 ≠ 0 then .error "#bad Huffman code"
-  else .error errInternal
 
 /-- `length = ((table_entry >> 8) & 0xFF) + 3`, plus the extra bits -/
 def lengthOf (src : Bytes) (e : Nat) (b : BR) : M (Nat × BR) := do
@@ -435,25 +443,28 @@ def lengthOf (src : Bytes) (e : Nat) (b : BR) : M (Nat × BR) := do
     .ok ((((length + 253 + (b.bits &&& ((1 <<< n) - 1))) &&& 0xFF) + 3), b.drop n)
   else .ok (length, b)
 
-/-- decode a dcode symbol from H-D and its extra bits: `dist_minus_1 + 1` -/
-def distanceOf (src : Bytes) (st : St) (b : BR) : M (Nat × BR) := do
-  let dmask := (1 <<< st.nHuffsBits1) - 1
-  let (e, b) ← lookupLoop src st.huffs1 0 dmask 3 b
-  let (e, b) ←
-    if e >>> 28 = 1 then
-      let redirTop := (e >>> 8) &&& 0xFFFF
-      let redirMask := (1 <<< ((e >>> 4) &&& 0x0F)) - 1
-      lookupLoop src st.huffs1 redirTop redirMask 3 b
-    else (.ok (e, b) : M (Nat × BR))
+/-- "For H-D, all symbols should be base_number + extra_bits": `dist_minus_1 + 1` from the entry and the extra bits -/
+def distValue (src : Bytes) (e : Nat) (b : BR) : M (Nat × BR) := do
   if e >>> 24 ≠ 0x40 then
     if e >>> 24 = 0x08 then .error "#bad Huffman code" else .error errInternal
   else
     let dm1 := (e >>> 8) &&& 0x7FFF
     let n := (e >>> 4) &&& 0x0F
     if n > 0 then
-      let b ← BR.fill src n 2 b
+      let b ← BR.fill src n 3 b
       .ok (((dm1 + (b.bits &&& ((1 <<< n) - 1))) &&& 0x7FFF) + 1, b.drop n)
     else .ok (dm1 + 1, b)
+
+/-- decode a dcode symbol from H-D (with the redirect check) and its extra bits -/
+def distanceOf (src : Bytes) (st : St) (b : BR) : M (Nat × BR) := do
+  let dmask := (1 <<< st.nHuffsBits1) - 1
+  let (e, b) ← lookupLoop src st.huffs1 0 dmask 3 b
+  if e >>> 28 = 1 then
+    let redirTop := (e >>> 8) &&& 0xFFFF
+    let redirMask := (1 <<< ((e >>> 4) &&& 0x0F)) - 1
+    let (e, b) ← lookupLoop src st.huffs1 redirTop redirMask 3 b
+    distValue src e b
+  else distValue src e b
 
 /-- the `while.loop` of decode_huffman_slow, one iteration per lcode symbol, until end-of-block -/
 def slowLoop (src : Bytes) (st : St) : Nat → BR → Bytes → M (BR × Bytes)
